@@ -418,7 +418,7 @@ func legC14Clock(c *Ctx) {
 			h = mk()
 			h.rng = NewRng(hseed)
 			if attempt > 0 {
-				c.Hist("history-run-again-after-a-timing-finding")
+				c.Hist("history-run-again-after-a-timing-finding-or-a-stall")
 			}
 			if !c14StopWithin(3*time.Second) || !regexp2.VerifClockReset() {
 				c.Add(&Case{Desc: fmt.Sprintf("before history %d: StopTimeoutClock", hi),
@@ -486,7 +486,7 @@ func legC14Clock(c *Ctx) {
 					h.group(h.randGroup())
 				}
 			}
-			if len(h.direct) == 0 || h.aborted {
+			if (len(h.direct) == 0 && h.stall <= c14Lag) || h.aborted {
 				break
 			}
 		}
@@ -497,6 +497,13 @@ func legC14Clock(c *Ctx) {
 			Nontrivial: h.sawTimeout > 0 && (h.sawStop > 0 || h.sawExit > 0) && h.sawRestart > 0, Class: "history"}
 		if len(h.direct) > 0 {
 			cs.Direct = strings.Join(h.direct, " | ")
+		}
+		if h.stall > c14Lag {
+			// three runs of this history, each with a scheduling stall longer than the lag the model allows for: the
+			// recorded snapshots say more about the machine than about the clock (the direct bounds above, which
+			// widen with the stall of their own step, still stand)
+			cs.ModelLeg, cs.ModelIn, cs.ImplOut = 0, nil, nil
+			c.Hist("history-too-stalled-for-the-model")
 		}
 		c.Add(cs)
 		if h.aborted {
